@@ -167,7 +167,13 @@ impl Stream for RtrListener {
                     this.server_metrics,
                 ) {
                     Ok(stream) => Poll::Ready(Some(Ok(stream))),
-                    Err(_) => Poll::Pending,
+                    Err(_) => {
+                        // We drop this connection but need to be polled
+                        // again for the next one: accepting has consumed
+                        // the readiness of the listener socket.
+                        ctx.waker().wake_by_ref();
+                        Poll::Pending
+                    }
                 }
             }
             Poll::Ready(Err(err)) => {
